@@ -492,7 +492,9 @@ fn run_schedule(rng: &mut Rng, kind: usize, k_gate: usize) -> Result<SchedOut, S
                  "rollback, delete as first operation, merge of committed segments, searcher before any commit",
                  "double gate: commit of a delete parked in its meta.json write while the merge reaches end_merge",
                  "policy merge of uncommitted segments with a delete and re-adds between them",
-                 "policy merge of committed segments while deletes are pending; searcher before any commit, then rollback or commit"];
+                 "policy merge of committed segments while deletes are pending; searcher before any commit, then rollback or commit",
+                 "uncommitted segments merged (explicitly or by policy), then a merge of committed segments saves meta.json without a commit",
+                 "storage fault on the merged segment's .store during an explicit merge"];
     let kname = names[kind];
     let committed: Vec<SegmentId> = index.searchable_segment_ids().map_err(|e| format!("{e}"))?;
     let mut gated = false;
@@ -683,6 +685,89 @@ fn run_schedule(rng: &mut Rng, kind: usize, k_gate: usize) -> Result<SchedOut, S
             s.check("after the policy merge of committed segments, before any commit")?;
             if s.rng.chance(1, 2) { s.rollback()?; s.add(2)?; s.commit()?; } else { s.commit()?; }
             s.w.set_merge_policy(Box::new(NoMergePolicy));
+        }
+        13 => {
+            // two uncommitted segments are merged before any commit; then something else than a commit saves meta.json (the end
+            // of a merge of committed segments): the never-committed documents must not be published, a rollback must forget them
+            if committed.len() < 2 { return Err("skip: need two committed segments".into()); }
+            let use_policy = s.rng.chance(1, 2);
+            let policy = ScriptedPolicy::default();
+            if use_policy { s.w.set_merge_policy(Box::new(policy.clone())); }
+            gate.reset_activity();
+            let before: BTreeSet<String> = s.segment_uuids().into_iter().collect();
+            let no_a = s.seg_counter;
+            let n = s.rng.range(2, 3) as usize; s.add(n)?; s.finalize_uncommitted()?;
+            let after_a: BTreeSet<String> = s.segment_uuids().into_iter().collect();
+            let a: Vec<&String> = after_a.difference(&before).collect();
+            if a.len() != 1 { return Err("skip: uncommitted segment not found".into()); }
+            let ida = SegmentId::from_uuid_string(a[0]).map_err(|e| format!("{e}"))?;
+            if use_policy {
+                // policy merges use a fresh target: a delete and re-adds between the segments are fine
+                let t = s.rng.below(4); s.del_tag(t); s.add_tagged(t)?; s.add(1)?;
+                let mut g = policy.0.lock().unwrap();
+                g.armed = true; g.want = 2; g.committed = committed.clone(); g.known_order = vec![ida];
+            } else { let n = s.rng.range(2, 3) as usize; s.add(n)?; }
+            let no_b = s.seg_counter;
+            s.finalize_uncommitted()?;
+            if use_policy {
+                let fired = policy.0.lock().unwrap().fired.clone();
+                match fired {
+                    Some(ids) if ids.len() == 2 && ids[0] == ida => { s.ops.push(format!("StartPolicyMerge {}", cf::ns(&[no_a, no_b]))); s.seg_counter += 1; }
+                    other => return Err(format!("skip: scripted policy did not fire ({:?})", other.map(|v| v.len()))),
+                }
+                let quiet = gate.wait_merge_quiet(1, 80, 4000);
+                std::thread::sleep(Duration::from_millis(30));
+                s.end_merge();
+                s.trace.push(format!("policy merge of the two uncommitted segments ended: {quiet}"));
+                s.w.set_merge_policy(Box::new(NoMergePolicy));
+            } else {
+                let after_b: BTreeSet<String> = s.segment_uuids().into_iter().collect();
+                let b: Vec<&String> = after_b.difference(&after_a).collect();
+                if b.len() != 1 { return Err("skip: uncommitted segment not found".into()); }
+                let idb = SegmentId::from_uuid_string(b[0]).map_err(|e| format!("{e}"))?;
+                let fut = s.start_merge(&[ida, idb])?;
+                let r = fut.wait(); s.end_merge();
+                s.trace.push(format!("explicit merge of the two uncommitted segments ended ({})", if r.is_ok() { "ok" } else { "error" }));
+            }
+            s.check("after the merge of uncommitted segments")?;
+            let fut = s.start_merge(&committed)?;
+            let r = fut.wait(); s.end_merge();
+            s.trace.push(format!("merge of the {} committed segments ended ({}): meta.json saved without a commit", committed.len(), if r.is_ok() { "ok" } else { "error" }));
+            gated = true;
+            s.check("after a merge of committed segments saved meta.json, before any commit")?;
+            if s.rng.chance(1, 2) { s.rollback()?; s.add(1)?; s.commit()?; } else { s.commit()?; }
+        }
+        14 => {
+            // an I/O error on the merged segment's doc store: either the merge reports an error and the index still holds
+            // every document, or it reports success and the merged index is complete and readable (also when reopened)
+            if committed.len() < 2 { return Err("skip: need two committed segments".into()); }
+            if s.rng.chance(1, 3) { let t = s.rng.below(4); s.del_tag(t); }     // possibly with a pending delete
+            let fk = [OpKind::Write, OpKind::Flush, OpKind::Terminate][s.rng.below(3) as usize].clone();
+            vd.set_fault_once(fk.clone(), ".store");
+            let fut = s.start_merge(&committed)?;
+            let r = fut.wait();
+            let fired = vd.faults_fired() > 0;
+            vd.set_fault(None, false, vec![]);
+            match &r {
+                Ok(_) => s.end_merge(),
+                Err(_) => s.ops.push("AbortMerge 0%nat".into()),
+            }
+            s.trace.push(format!("explicit merge with a {} fault on *.store (fired: {fired}): {}", fk.name(), match &r { Ok(Some(_)) => "reported success".to_string(), Ok(None) => "no segment".to_string(), Err(e) => format!("reported error {}", e.to_string().chars().take(80).collect::<String>()) }));
+            gated = fired;
+            if let Err(e) = s.check("after a merge that hit a storage fault on its doc store") {
+                // keep the history in the report instead of a bare error
+                s.problems.push(format!("index unreadable after a merge that hit a doc-store fault ({}): {e}", if r.is_ok() { "merge reported success" } else { "merge reported an error" }));
+                let problems = s.problems.clone();
+                let desc = json!({"schedule": kname, "gate_op": k_gate, "gated": gated, "trace": s.trace, "problems": problems, "checks": s.checks});
+                return Ok(SchedOut { ok: false, desc, gated, kind: kname, ops: None });
+            }
+            // what is on storage must be a complete, readable index
+            match Index::open(vd.clone()).map_err(|e| format!("{e}")).and_then(|ix| published(&ix, &s.f)) {
+                Ok(p) => { let got: Vec<u64> = p.keys().cloned().collect(); let exp: Vec<u64> = s.rp.committed.keys().cloned().collect();
+                           if got != exp { s.problems.push(format!("reopened index after the faulty merge differs from the last commit: got {got:?} expected {exp:?}")); } }
+                Err(e) => s.problems.push(format!("index unreadable after a merge that hit a doc-store fault ({}): {e}", if r.is_ok() { "merge reported success" } else { "merge reported an error" })),
+            }
+            s.commit()?;
         }
         4 => {
             if committed.len() < 2 { return Err("skip: need two segments".into()); }
@@ -968,10 +1053,10 @@ fn main() {
     }
 
     // ---------------- schedules: operations issued while a merge is running ----------------
-    let n_sched = if thorough { 650 } else { 104 };
+    let n_sched = if thorough { 750 } else { 120 };
     for i in 0..n_sched + 2 {
-        let kind = i % 13;
-        let k_gate = [1usize, 2, 3, 5, 8, 13, 21, 34, 55][(i / 13) % 9];
+        let kind = i % 15;
+        let k_gate = [1usize, 2, 3, 5, 8, 13, 21, 34, 55][(i / 15) % 9];
         let res = if i >= n_sched { guarded(|| run_corpus(&mut rng, i == n_sched)) } else { guarded(|| run_schedule(&mut rng, kind, k_gate)) };
         match res {
             Ok(Ok(o)) => {
